@@ -178,7 +178,12 @@ func genSchema(repo, out string) {
 		target := filepath.Join(work, "schema.json")
 		// the target already exists and is longer than what will be written (regenerating the published file)
 		os.WriteFile(target, append(append([]byte{}, published...), bytes.Repeat([]byte("stale trailing bytes\n"), 40)...), 0o644)
-		if err := exec.Command(bin, "jsonschema", "-o", target).Run(); err == nil {
+		// ... and this second run happens in another directory, time zone and locale and with SOURCE_DATE_EPOCH set: the
+		// schema is a function of the code alone, so it must come out the same as the first run's
+		cmd := exec.Command(bin, "jsonschema", "-o", target)
+		cmd.Dir = work
+		cmd.Env = append(os.Environ(), "SOURCE_DATE_EPOCH=1700000000", "TZ=Asia/Kolkata", "LC_ALL=tr_TR.UTF-8", "HOME="+work, "NFPM_PASSPHRASE=x")
+		if err := cmd.Run(); err == nil {
 			fileOut, _ = os.ReadFile(target)
 		}
 		stdoutSame = bytes.Equal(bytes.TrimRight(emitted, "\n"), fileOut)
